@@ -398,6 +398,7 @@ func aggregate(cfg *propCfg, tier string, seed uint64, b *build, outs []shardOut
 	var viols []replayFile
 	notes := []string{}
 	exhaustive := true
+	crashSeen := map[string]bool{}
 	for i, so := range outs {
 		if so.res == nil {
 			// abnormal end of a shard: a crash of the code under test (panic in a library
@@ -407,8 +408,13 @@ func aggregate(cfg *propCfg, tier string, seed uint64, b *build, outs []shardOut
 				fmt.Fprintf(os.Stderr, "shard %d exit=%d status=%s\n%s\n", i, so.exit, so.status, so.stderr)
 				infra("shard %d ended abnormally (exit %d) and the cause is not attributable to the code under test", i, so.exit)
 			}
-			rf := crashReplay(cfg, tier, seed, b, so, v)
-			viols = append(viols, rf)
+			k := v.Kind + "@" + v.Site
+			if !crashSeen[k] {
+				crashSeen[k] = true
+				rf := crashReplay(cfg, tier, seed, b, so, v, known)
+				viols = append(viols, rf)
+			}
+			stats["shards_ended_by_crash_or_race_report"]++
 			exhaustive = false
 			continue
 		}
@@ -490,8 +496,12 @@ func aggregate(cfg *propCfg, tier string, seed uint64, b *build, outs []shardOut
 	ev := evidence{PropertyID: cfg.ID, Tier: tier, Seed: seed, Level: cfg.Level, Coverage: cov,
 		Assumptions: cfg.Assumptions, WallS: wall, Violations: newViol}
 	jb, _ := json.MarshalIndent(ev, "", " ")
-	os.MkdirAll(filepath.Join(verifDir, "evidence"), 0o755)
-	if err := os.WriteFile(filepath.Join(verifDir, "evidence", cfg.ID+".json"), jb, 0o644); err != nil {
+	evDir := filepath.Join(verifDir, "evidence")
+	if d := os.Getenv("VERIF_EVIDENCE_DIR"); d != "" {
+		evDir = d // experiments on deliberately broken trees must not overwrite the real evidence
+	}
+	os.MkdirAll(evDir, 0o755)
+	if err := os.WriteFile(filepath.Join(evDir, cfg.ID+".json"), jb, 0o644); err != nil {
 		infra("write evidence: %v", err)
 	}
 	for _, l := range knownLines {
@@ -519,52 +529,95 @@ func firstLines(s string, n int) string {
 	return strings.Join(lines, "\n  ")
 }
 
-var raceFrame = regexp.MustCompile(`(?m)^\s+(/repo/[^\s:]+):(\d+)`)
-var raceFunc = regexp.MustCompile(`(?m)^\s+(github\.com/tdewolff/[^\s(]+)\(`)
+var frameFunc = regexp.MustCompile(`^\s{2}(\S+)\(`)
+var frameFile = regexp.MustCompile(`^\s{6}(/\S+):(\d+)`)
+
+// raceSite extracts, for each of the two access stacks of the first race report, the
+// innermost function that belongs to the module under test (not the facade): the sorted
+// pair is the site.
+func raceSite(report string) (string, bool) {
+	lines := strings.Split(report, "\n")
+	var sites []string
+	inStack := false
+	found := false
+	for i := 0; i < len(lines) && len(sites) < 2; i++ {
+		l := lines[i]
+		if strings.HasPrefix(l, "Read at ") || strings.HasPrefix(l, "Write at ") || strings.HasPrefix(l, "Previous read at ") || strings.HasPrefix(l, "Previous write at ") ||
+			strings.HasPrefix(l, "Atomic ") || strings.HasPrefix(l, "Previous atomic ") {
+			inStack, found = true, false
+			continue
+		}
+		if strings.HasPrefix(l, "Goroutine ") {
+			break
+		}
+		if !inStack || found {
+			continue
+		}
+		if l == "" {
+			if !found {
+				sites = append(sites, "outside-module")
+			}
+			inStack = false
+			continue
+		}
+		if m := frameFunc.FindStringSubmatch(l); m != nil && i+1 < len(lines) {
+			if f := frameFile.FindStringSubmatch(lines[i+1]); f != nil && strings.HasPrefix(f[1], repoDir+"/") && !strings.Contains(f[1], "/verifsync/") && !strings.Contains(f[1], "/verifos/") {
+				fn := strings.TrimPrefix(m[1], "github.com/tdewolff/minify/v2/")
+				fn = strings.TrimPrefix(fn, "github.com/tdewolff/minify/v2.")
+				sites = append(sites, fn)
+				found = true
+			}
+		}
+	}
+	inRepo := false
+	for _, s := range sites {
+		if s != "outside-module" {
+			inRepo = true
+		}
+	}
+	if !inRepo {
+		return "", false
+	}
+	sort.Strings(sites)
+	return strings.Join(sites, "|"), true
+}
+
+var panicFunc = regexp.MustCompile(`(?m)^(github\.com/tdewolff/minify/v2[^\s(]*)\(`)
 
 // classifyCrash decides whether an abnormal shard end is attributable to the code under
 // test.
 func classifyCrash(cfg *propCfg, so shardOut) (violation, bool) {
 	switch {
 	case so.exit == 66 || strings.Contains(so.stderr, "WARNING: DATA RACE"):
-		site := "unknown"
-		funcs := raceFunc.FindAllStringSubmatch(so.stderr, -1)
-		seen := map[string]bool{}
-		var fs []string
-		for _, f := range funcs {
-			name := f[1]
-			if strings.Contains(name, "/verifsync") || seen[name] {
-				continue
-			}
-			seen[name] = true
-			fs = append(fs, name)
-			if len(fs) == 2 {
-				break
-			}
+		idx := strings.Index(so.stderr, "WARNING: DATA RACE")
+		rep := so.stderr
+		if idx >= 0 {
+			rep = so.stderr[idx:]
 		}
-		if len(fs) == 0 {
+		site, ok := raceSite(rep)
+		if !ok {
 			return violation{}, false // harness-only race: infrastructure
 		}
-		sort.Strings(fs)
-		site = strings.Join(fs, "|")
-		return violation{Kind: "data-race", Site: site, Detail: so.stderr}, true
+		return violation{Kind: "data-race", Site: site, Detail: tail(rep, 6000)}, true
 	case so.exit == -2:
 		return violation{Kind: "hang", Site: "watchdog", Detail: "the simulated run never reached quiescence (a goroutine spins or is blocked outside the simulator's seams); last case: " + so.status + "\n" + so.stderr}, false
 	case strings.Contains(so.stderr, "panic:") || strings.Contains(so.stderr, "fatal error:"):
-		if !strings.Contains(so.stderr, "github.com/tdewolff/") {
+		m := panicFunc.FindStringSubmatch(so.stderr)
+		if m == nil {
 			return violation{}, false
 		}
-		site := "unknown"
-		if m := raceFunc.FindStringSubmatch(so.stderr); m != nil {
-			site = m[1]
+		site := strings.TrimPrefix(strings.TrimPrefix(m[1], "github.com/tdewolff/minify/v2/"), "github.com/tdewolff/minify/v2.")
+		idx := strings.Index(so.stderr, "panic:")
+		if idx < 0 {
+			idx = strings.Index(so.stderr, "fatal error:")
 		}
-		return violation{Kind: "crash", Site: site, Detail: so.stderr}, true
+		return violation{Kind: "crash", Site: site, Detail: tail(so.stderr[idx:], 6000)}, true
 	}
 	return violation{}, false
 }
 
 // crashReplay turns the status record of a crashed shard into a replay file.
-func crashReplay(cfg *propCfg, tier string, seed uint64, b *build, so shardOut, v violation) replayFile {
+func crashReplay(cfg *propCfg, tier string, seed uint64, b *build, so shardOut, v violation, known *knownFile) replayFile {
 	var st struct {
 		Index  uint64   `json:"index"`
 		Vals   []uint64 `json:"vals"`
@@ -573,6 +626,9 @@ func crashReplay(cfg *propCfg, tier string, seed uint64, b *build, so shardOut, 
 	json.Unmarshal([]byte(strings.TrimSpace(so.status)), &st)
 	rf := replayFile{Property: cfg.ID, Tier: tier, Seed: seed, Stream: cfg.ID, Case: st.Index, Tape: st.Vals, Random: st.Random,
 		Violation: v, Engine: "libsim", OrigTape: len(st.Vals)}
+	if _, ok := known.match(cfg.ID, v); ok {
+		return rf // a listed finding needs no minimised replay
+	}
 	return shrinkCrash(cfg, b, rf)
 }
 
